@@ -163,7 +163,8 @@ class Run:
         if self.broken:
             for b in self.broken:
                 print("ANALYSIS-BROKEN property=%s %s" % (self.prop, b))
-            return 2
+            if not reported:
+                return 2
         if reported:
             od = os.path.join(OUT, self.prop)
             os.makedirs(od, exist_ok=True)
